@@ -45,6 +45,7 @@ def fru_ascii(d, o):
 
 
 class _SubUnit(Unit):
+    stdout_silent = True
     prop = "C03"
     cls = None
     contracts = DS_CONTRACTS
@@ -583,6 +584,7 @@ class MruIdInv(LoopInv):
 
 class GetCallouts(Unit):
     prop = "C03"
+    stdout_silent = True
     name = "SRC.getCallouts"
     target = SRCC + ".getCallouts"
     contracts = DS_CONTRACTS + [CCallout, CFlattenedSize, CGetProcedureDesc]
